@@ -190,4 +190,36 @@ example : TDF2_WF { channel_specific_data := 0x21, seconds := 1709208000, nanose
     isPTP 0x21 = true ∧ isPTP 0x11 = true ∧ isPTP 0x01 = false := by
   refine ⟨by simp [TDF2_WF], by decide, by decide, by decide⟩
 
+/-! ### review additions (rev1-C04) -/
+
+/-- the NTP round trip for the executable model (`fl = rne`, what the driver runs and the
+    correspondence check compares with CPython); `TDF2_roundtrip_ntp` had no `_exec` instance -/
+theorem TDF2_roundtrip_ntp_exec (s t : State2) (h : TDF2_WF s) (hp : isPTP s.channel_specific_data = false) :
+    ∃ b, s.pack = .ok b ∧ (State2.unpack t b).2 = .ok () ∧
+      (State2.unpack t b).1.channel_specific_data = s.channel_specific_data ∧
+      (State2.unpack t b).1.seconds = s.seconds ∧
+      (State2.unpack t b).1.nanoseconds ≤ s.nanoseconds ∧
+      s.nanoseconds ≤ (State2.unpack t b).1.nanoseconds + 1 :=
+  TDF2_roundtrip_ntp Float.rne rne_floatSem s t h hp
+
+/-- the hypothesis `FloatSem fl` of the `fl`-generic theorems is satisfiable: binary64
+    round-to-nearest-even is an instance (so none of them is vacuous) -/
+example : ∃ fl : ℚ → ℚ, FloatSem fl := ⟨Float.rne, rne_floatSem⟩
+
+/-- joint witness for `TDF2_roundtrip_ntp` / `_ntp_exec` (`h` and `hp` on the SAME object): NTP code
+    (time-code bits 0, other CSW bits set), largest seconds and nanoseconds -/
+example : TDF2_WF { channel_specific_data := 0xFFFFFF0F, seconds := 0xFFFFFFFF, nanoseconds := 999999999 } ∧
+    isPTP 0xFFFFFF0F = false := by
+  refine ⟨by simp [TDF2_WF], by decide⟩
+
+/-- joint witness for `TDF2_roundtrip_ptp` with the IEEE-1588-2008 code (time-code bits = 2) -/
+example : TDF2_WF { channel_specific_data := 0x20, seconds := 1, nanoseconds := 123456789 } ∧ isPTP 0x20 = true := by
+  refine ⟨by simp [TDF2_WF], by decide⟩
+
+/-- the two IEEE-1588 time codes on the executable decoder, concretely: 2002 (0x10) and 2008 (0x20) both
+    read the fraction field as nanoseconds (for NTP see the `123456789 → 123456788` example above) -/
+example : (State2.unpack State2.fresh (encInt false 4 0x10 ++ encInt false 4 5 ++ encInt false 4 123456789)).1.nanoseconds = 123456789 ∧
+    (State2.unpack State2.fresh (encInt false 4 0x20 ++ encInt false 4 5 ++ encInt false 4 123456789)).1.nanoseconds = 123456789 := by
+  refine ⟨by decide +kernel, by decide +kernel⟩
+
 end Acra.Props.C04
